@@ -1323,7 +1323,7 @@ func (s *sim) randomV2(nd *simNode) pb.ConfChangeV2 {
 	}
 	joint := len(nd.conf.VotersOutgoing) > 0
 	switch x := s.rng.Intn(100); {
-	case joint && !nd.conf.AutoLeave && x < 70:
+	case joint && !nd.conf.AutoLeave && x < 55:
 		return pb.ConfChangeV2{} // LeaveJoint
 	case x < 25:
 		return pb.ConfChangeV2{Transition: pb.ConfChangeTransitionAuto, Changes: []pb.ConfChangeSingle{one(false)}}
